@@ -184,7 +184,7 @@ func (obj Object) CompletionAtPos(ctx context.Context, pos hcl.Pos) []lang.Candi
 	})
 
 	// parenthesis implies interpolated attribute name
-	if trimmedBytes[len(trimmedBytes)-1] == '(' && obj.cons.AllowInterpolatedKeys {
+	if len(trimmedBytes) > 0 && trimmedBytes[len(trimmedBytes)-1] == '(' && obj.cons.AllowInterpolatedKeys {
 		emptyExpr := newEmptyExpressionAtPos(eType.Range().Filename, pos)
 		attrNameCons := schema.AnyExpression{
 			OfType: cty.String,
@@ -232,6 +232,10 @@ func objectItemPrefixBasedEditRange(remainingRange hcl.Range, fileBytes []byte, 
 	roughEndByteOffset := bytes.IndexFunc(remainingBytes, func(r rune) bool {
 		return r == '\n' || r == '}'
 	})
+	if roughEndByteOffset < 0 {
+		// neither a newline nor a closing brace follows (unterminated object)
+		roughEndByteOffset = len(remainingBytes)
+	}
 	// avoid editing over whitespace
 	trimmedRightBytes := bytes.TrimRightFunc(remainingBytes[:roughEndByteOffset], func(r rune) bool {
 		return unicode.IsSpace(r)
